@@ -372,40 +372,77 @@ func run(id, tier, replay string) int {
 		log      string
 	}
 	results := make([]res, cfg.Shards)
+	runShard := func(i int) res {
+		cmd := exec.Command(bin, "-test.run", "^TestProp$", "-test.timeout", (budget + 30*time.Second).String(), "-test.count", "1")
+		cmd.Dir = root
+		cmd.Env = append(goEnv(),
+			"VERIF_TIER="+tier, "VERIF_SEED="+seed(),
+			"VERIF_SHARD="+strconv.Itoa(i), "VERIF_NSHARDS="+strconv.Itoa(cfg.Shards),
+			"VERIF_OUT="+out)
+		if cfg.MemLimitMB > 0 {
+			cmd.Env = append(cmd.Env, "GOMEMLIMIT="+strconv.Itoa(cfg.MemLimitMB*3/4)+"MiB", "VERIF_MEM_MB="+strconv.Itoa(cfg.MemLimitMB))
+		}
+		logf, _ := os.Create(filepath.Join(out, fmt.Sprintf("log_%d.txt", i)))
+		defer logf.Close()
+		cmd.Stdout, cmd.Stderr = logf, logf
+		if err := cmd.Start(); err != nil {
+			return res{shard: i, err: err}
+		}
+		done := make(chan error, 1)
+		go func() { done <- cmd.Wait() }()
+		select {
+		case err := <-done:
+			return res{shard: i, err: err}
+		case <-time.After(budget + 60*time.Second):
+			cmd.Process.Kill()
+			<-done
+			return res{shard: i, err: fmt.Errorf("killed after budget"), timedOut: true}
+		}
+	}
 	var wg sync.WaitGroup
 	for i := 0; i < cfg.Shards; i++ {
 		wg.Add(1)
 		go func(i int) {
 			defer wg.Done()
-			cmd := exec.Command(bin, "-test.run", "^TestProp$", "-test.timeout", (budget + 30*time.Second).String(), "-test.count", "1")
-			cmd.Dir = root
-			cmd.Env = append(goEnv(),
-				"VERIF_TIER="+tier, "VERIF_SEED="+seed(),
-				"VERIF_SHARD="+strconv.Itoa(i), "VERIF_NSHARDS="+strconv.Itoa(cfg.Shards),
-				"VERIF_OUT="+out)
-			if cfg.MemLimitMB > 0 {
-				cmd.Env = append(cmd.Env, "GOMEMLIMIT="+strconv.Itoa(cfg.MemLimitMB*3/4)+"MiB", "VERIF_MEM_MB="+strconv.Itoa(cfg.MemLimitMB))
-			}
-			logf, _ := os.Create(filepath.Join(out, fmt.Sprintf("log_%d.txt", i)))
-			defer logf.Close()
-			cmd.Stdout, cmd.Stderr = logf, logf
-			if err := cmd.Start(); err != nil {
-				results[i] = res{shard: i, err: err}
-				return
-			}
-			done := make(chan error, 1)
-			go func() { done <- cmd.Wait() }()
-			select {
-			case err := <-done:
-				results[i] = res{shard: i, err: err}
-			case <-time.After(budget + 60*time.Second):
-				cmd.Process.Kill()
-				<-done
-				results[i] = res{shard: i, err: fmt.Errorf("killed after budget"), timedOut: true}
-			}
+			results[i] = runShard(i)
 		}(i)
 	}
 	wg.Wait()
+
+	// A shard process that died without having recorded a violation, and whose
+	// current case does not fail when replayed alone, is started once more: the
+	// run is a function of the seed, so the second attempt covers the same
+	// cases. (Seen once: a segmentation fault inside the Go runtime's sweeper.)
+	var restarted []int
+	for i := 0; i < cfg.Shards; i++ {
+		r := results[i]
+		if r.err == nil || r.timedOut {
+			continue
+		}
+		if b, err := os.ReadFile(filepath.Join(out, fmt.Sprintf("shard_%d.json", i))); err == nil {
+			var so shardOut
+			recorded := false
+			if json.Unmarshal(b, &so) == nil {
+				for _, sub := range so.Subs {
+					recorded = recorded || len(sub.Violations) > 0
+				}
+			}
+			if recorded {
+				continue
+			}
+		}
+		cur := filepath.Join(out, fmt.Sprintf("cur_%d.json", i))
+		if cb, err := os.ReadFile(cur); err == nil && len(bytes.TrimSpace(cb)) > 0 {
+			tmp := filepath.Join(out, fmt.Sprintf("died_%d.json", i))
+			os.WriteFile(tmp, cb, 0o644)
+			if v, _, ran := runReplay(bin, cfg, tmp, 2*time.Minute); ran && v {
+				continue // reproduces: reported below
+			}
+		}
+		os.Rename(filepath.Join(out, fmt.Sprintf("log_%d.txt", i)), filepath.Join(out, fmt.Sprintf("log_%d.first-attempt.txt", i)))
+		results[i] = runShard(i)
+		restarted = append(restarted, i)
+	}
 
 	// aggregate
 	agg := map[string]*subStats{}
@@ -595,6 +632,9 @@ func run(id, tier, replay string) int {
 	}
 	if len(inconclusive) > 0 {
 		cov["inconclusive"] = inconclusive
+	}
+	if len(restarted) > 0 {
+		cov["shards_restarted_after_a_crash_that_did_not_reproduce"] = restarted
 	}
 	ev := map[string]any{
 		"property_id": id,
